@@ -16,9 +16,11 @@ def initializeConfigIx (admin : Bool) (proto : Nat) : Except String Nat :=
     | .error e => .error e.name
     | .ok p => .ok p
 
-/-- `initialize_fee_tier` (`taken`: the tier address already holds an account) -/
-def initializeFeeTierIx (auth : Nat) (taken : Bool) (ts fee : Nat) : Except String (Nat × Nat) :=
+/-- `initialize_fee_tier` (`taken`: the tier address already holds an account; `wrongAddr`: the account offered
+    for creation is not at the address derived from config and spacing) -/
+def initializeFeeTierIx (auth : Nat) (taken wrongAddr : Bool) (ts fee : Nat) : Except String (Nat × Nat) :=
   if auth = 2 then .error "AccountNotSigner"
+  else if wrongAddr then .error "ConstraintSeeds"
   else if taken then .error "AccountAlreadyInitialized"
   else if auth = 1 then .error "ConstraintAddress"
   else if ts = 0 then .error "InvalidTickSpacing"
@@ -27,8 +29,9 @@ def initializeFeeTierIx (auth : Nat) (taken : Bool) (ts fee : Nat) : Except Stri
     | .ok f => .ok (ts, f)
 
 /-- `initialize_adaptive_fee_tier` -/
-def initializeAdaptiveFeeTierIx (auth : Nat) (taken : Bool) (idx ts fee : Nat) (c : AfConstants) : Except String (Nat × Nat) :=
+def initializeAdaptiveFeeTierIx (auth : Nat) (taken wrongAddr : Bool) (idx ts fee : Nat) (c : AfConstants) : Except String (Nat × Nat) :=
   if auth = 2 then .error "AccountNotSigner"
+  else if wrongAddr then .error "ConstraintSeeds"
   else if taken then .error "AccountAlreadyInitialized"
   else if auth = 1 then .error "ConstraintAddress"
   else if idx = ts then .error "InvalidFeeTierIndex"
@@ -54,6 +57,7 @@ def initializeRewardIx (v2 : Bool) (auth idx ninit : Nat) (m : MintIn) : Except 
 /-- what sits at a tick array's address before the initialiser runs -/
 inductive TarrPre where
   | nothing | fixed | dynamic | foreign
+  | wrongAddress      -- the account offered is not at the address derived from pool and start index
   deriving DecidableEq, Repr
 
 inductive TarrOut where
@@ -62,19 +66,22 @@ inductive TarrOut where
 
 /-- `initialize_tick_array` (dynamic = false) / `initialize_dynamic_tick_array(start, idempotent)` -/
 def initializeTickArrayIx (dynamic idem : Bool) (pre : TarrPre) (start : Int) (ts : Nat) : Except String TarrOut :=
-  if !dynamic then
+  if pre = .wrongAddress then .error "ConstraintSeeds"
+  else if !dynamic then
     if pre ≠ .nothing then .error "AccountAlreadyInitialized"
     else if !validStartTick start ts then .error "InvalidStartTick"
     else .ok .createdFixed
   else
     match pre with
+    | .wrongAddress => .error "ConstraintSeeds"
     | .foreign => .error "AccountOwnedByWrongProgram"
     | .fixed | .dynamic => if idem then .ok .existing else .error "AccountDiscriminatorAlreadySet"
     | .nothing => if !validStartTick start ts then .error "InvalidStartTick" else .ok .createdDynamic
 
 /-- `initialize_config_extension` -/
-def initializeConfigExtensionIx (auth : Nat) (taken : Bool) : Except String Unit :=
+def initializeConfigExtensionIx (auth : Nat) (taken wrongAddr : Bool) : Except String Unit :=
   if auth = 2 then .error "AccountNotSigner"
+  else if wrongAddr then .error "ConstraintSeeds"
   else if taken then .error "AccountAlreadyInitialized"
   else if auth = 1 then .error "ConstraintAddress"
   else .ok ()
